@@ -19,7 +19,8 @@ def St.bases (s : St) (i : Nat) : List Nat := ((s.ibases.find? (·.1 == i)).map 
 def reach (s : St) : Nat → Nat → Nat → Bool
   | 0, i, j => i == j
   | f+1, i, j => i == j || (s.bases i).any fun b => reach s f b j
-def St.ext (s : St) (i j : Nat) : Bool := reach s (s.ibases.length + 1) i j
+/-- `i.isOrExtends(j)`: everything extends the root `Interface` (node 0) -/
+def St.ext (s : St) (i j : Nat) : Bool := j == 0 || reach s (s.ibases.length + 1) i j
 /-- interfaces of `implementedBy(c)`: declared, then (unless an *only* form cut it) those of the Python bases -/
 def expandCls (s : St) : Nat → Nat → List Nat
   | 0, _ => []
@@ -47,6 +48,7 @@ def nums (s : String) : List Nat := (s.splitOn " ").filterMap String.toNat?
 def shw (l : List Nat) : String := " ".intercalate (l.map toString)
 def St.iter (s : St) (n : String) : List Nat :=
   if n.startsWith "i" && (n.drop 1).toString.toNat?.isSome then [(n.drop 1).toString.toNat!]
+  else if n.startsWith "c" && (n.drop 1).toString.toNat?.isSome then s.ex (n.drop 1).toString.toNat!
   else iterDecl s.ex (((s.decls.find? (·.1 == n)).map (·.2)).getD [])
 
 /-! ### the specification graph for `flattened()`: interface `i` is node `i` (0 = `Interface`), `implementedBy(object)` is node 1000,
@@ -85,6 +87,11 @@ partial def loop (h : IO.FS.Stream) (s : St) : IO Unit := do
       let post := (rest.dropWhile (· != "|")).drop 1
       IO.println "ok"
       loop h { s with classes := s.classes ++ [(c.toNat!, ⟨pre.filterMap String.toNat?, post.filterMap String.toNat?, o == "1"⟩)] }
+  | "cimpl" :: c :: ":" :: ds =>
+      -- a later `classImplements(C, …)`: appended to what the class declares itself (the generator names nothing the class already implies)
+      IO.println "ok"
+      loop h { s with classes := s.classes.map fun e =>
+        if e.1 == c.toNat! then (e.1, { e.2 with declared := e.2.declared ++ ds.filterMap String.toNat? }) else e }
   | "decl" :: n :: "=" :: tree =>
       let (args, _) := parse tree []
       IO.println "ok"; loop h { s with decls := (s.decls.filter (·.1 != n)) ++ [(n, args)] }
